@@ -202,7 +202,7 @@ func (h *History) Observe(rec *sim.ScanRecord) *ScanCtx {
 	// UpExact: what the scan needs is still exactly known from the view it was served (also a stale one), and how it
 	// must split it between untainting and the cloud can be judged, as long as the injected failures are clean
 	// failures of node reads/writes or removal calls (no lost reply, nothing wrong with lists, describes or resizes)
-	sc.UpExact = !rec.MidScan && !rec.Crashed && rec.Panic == nil && !rec.Fatal
+	sc.UpExact = !rec.Crashed && rec.Panic == nil && !rec.Fatal
 	for _, e := range rec.Events {
 		if !e.Injected {
 			continue
